@@ -33,6 +33,11 @@ type CallSpec struct {
 	ReadPat  int // 0 read to EOF, 1 exact length then Close, 2 small random reads
 	ReadPat3 int // pattern for arg3 when it differs from arg2's: value-1 (0 = same as ReadPat)
 	CancelAfter time.Duration // >0: the caller cancels its context after this long
+	// >0: the caller's context is cancelled at the very instant the handler is about to
+	// write its response (1 = before arg2, 2 = before the last argument, 3 = right after
+	// the response is complete): the cancel frame and the response's last frame travel
+	// towards each other
+	CancelOnResponse int
 	LateRead    time.Duration // >0: the handler is busy this long between reading arg2 and reading arg3
 	ReadPause   time.Duration // >0: the caller is busy this long between writing the request and reading the response
 	ChunkPause  time.Duration // >0: the caller reads the response piecewise and is busy this long after each piece
@@ -104,6 +109,7 @@ type CallRec struct {
 	TOutEv    int64 // event number when BeginCall returned
 	CorruptReq, CorruptRes bool // a byte of the request / response was altered in transit
 	Read2, Read3 int // response argument bytes handed to the caller (also when a read failed)
+	cancelFn  func()
 }
 
 // completedNormally: the call ended with its response or with the error its
@@ -394,29 +400,32 @@ func (w *World) Call(r *CallRec) {
 	cb := tchannel.NewContextBuilder(s.Timeout)
 	ctx, cancel = cb.Build()
 	defer cancel()
-	stall0 := sched.StallTime
+	stall0 := sched.Stalled()
 	r.Stall0 = stall0
 	r.BeginEv = w.event("call-begin", "%s %s->%s %s mode=%s to=%v a2=%d a3=%d", s.Tag, s.From.Name, s.To, s.Via, s.Mode, s.Timeout, len(r.Req2), len(r.Req3))
 	r.TIn = simrt.Elapsed()
 	r.Deadline = r.TIn + s.Timeout
 	simrt.AddInstant(time.Now().Add(s.Timeout))
+	doCancel := func() {
+		if !r.Done && !r.Cancelled {
+			r.Cancelled = true
+			r.CancelAt = simrt.Elapsed()
+			r.CancelEv = w.event("call-cancel", "%s", s.Tag)
+			cancel()
+		}
+	}
 	if s.CancelAfter > 0 {
-		ca := s.CancelAfter
-		t := time.AfterFunc(ca, func() {
-			if !r.Done {
-				r.Cancelled = true
-				r.CancelAt = simrt.Elapsed()
-				r.CancelEv = w.event("call-cancel", "%s", s.Tag)
-				cancel()
-			}
-		})
+		t := time.AfterFunc(s.CancelAfter, doCancel)
 		defer t.Stop()
+	}
+	if s.CancelOnResponse > 0 {
+		r.cancelFn = doCancel
 	}
 	finish := func(err error) {
 		r.Err = err
 		r.Done = true
 		r.EndAt = simrt.Elapsed()
-		r.StallIn = sched.StallTime - stall0
+		r.StallIn = sched.Stalled() - stall0
 		r.EndEv = w.event("call-end", "%s err=%v app=%v", s.Tag, errStr(err), r.AppErr)
 		w.checkCallOutcome(r)
 	}
@@ -688,7 +697,7 @@ func (h *echoHandler) Handle(ctx context.Context, call *tchannel.InboundCall) {
 	if delay > 0 {
 		t := time.NewTimer(time.Duration(delay))
 		obs.Waiting = true
-		st0 := simrt.Cur().StallTime
+		st0 := simrt.Cur().Stalled()
 		select {
 		case <-t.C:
 			if ctx.Err() != nil {
@@ -709,9 +718,21 @@ func (h *echoHandler) Handle(ctx context.Context, call *tchannel.InboundCall) {
 		}
 		obs.WaitedUntil = simrt.Elapsed()
 		obs.WaitOver = true
-		obs.StallInWait = simrt.Cur().StallTime - st0
+		obs.StallInWait = simrt.Cur().Stalled() - st0
+	}
+	cancelAt := func(k int) {
+		if rec != nil && rec.Spec.CancelOnResponse == k && rec.cancelFn != nil {
+			w.probe("handler.caller-cancelled-at-response")
+			rec.cancelFn()
+		}
 	}
 	resp := call.Response()
+	if mode != "blackhole" {
+		cancelAt(1)
+	}
+	if mode == "syserr" {
+		cancelAt(2)
+	}
 	switch mode {
 	case "blackhole":
 		resp.Blackhole()
@@ -735,8 +756,18 @@ func (h *echoHandler) Handle(ctx context.Context, call *tchannel.InboundCall) {
 	if mode == "chunky" {
 		wp = 3
 	}
+	// what the library's own ErrorHandlerFunc and thrift server do when a handler comes
+	// back with an error: report it as a system error (the library must not let a second
+	// terminal frame out if the response already went, or failed, on the wire)
+	reportWriteError := func(err error) {
+		if fnv(tag)%2 == 0 {
+			w.probe("handler.write-error-reported-as-system-error")
+			resp.SendSystemError(err)
+		}
+	}
 	if err := writeArg(resp.Arg2Writer())(r2, wp); err != nil {
 		obs.RespErr = err
+		reportWriteError(err)
 		h.watchCtx(ctx, obs)
 		return
 	}
@@ -753,9 +784,12 @@ func (h *echoHandler) Handle(ctx context.Context, call *tchannel.InboundCall) {
 		h.watchCtx(ctx, obs)
 		return
 	}
+	cancelAt(2)
 	if err := writeArg(resp.Arg3Writer())(r3, wp); err != nil {
 		obs.RespErr = err
+		reportWriteError(err)
 	}
+	cancelAt(3)
 	h.watchCtx(ctx, obs)
 }
 
